@@ -409,6 +409,49 @@ def check_global_memos(run, rule, modname):
     return n
 
 
+def check_class_stores(run, rule, modname, modfuncs):
+    """A function that assigns an attribute of a *class object* at run time -- `cls.x = v`, `setattr(cls, name, v)` in a
+    classmethod, `ClassName.x = v`, `type(self).x = v` -- changes the default every other instance sees: what one call
+    selected survives into objects created later in the process.  (Class bodies and module-level configuration are not
+    functions and are not looked at.)"""
+    project = run.project
+    mod = project.mod(modname)
+    class_names = {n.name for n in mod.tree.body if isinstance(n, ast.ClassDef)}
+    for f in modfuncs:
+        if f.module.kind != "py":
+            continue
+        is_cm = any((dotted(d) or "").split(".")[-1] == "classmethod" for d in f.node.decorator_list)
+        ps = f.params()
+        cls_param = ps[0] if (is_cm and ps) else None
+        rebound = {n.id for n in own_nodes(f.node) if isinstance(n, ast.Name) and isinstance(n.ctx, ast.Store)}
+
+        def is_class_obj(x):
+            if isinstance(x, ast.Name):
+                if x.id in rebound:
+                    return False
+                return (cls_param is not None and x.id == cls_param) or (x.id in class_names and x.id not in ps)
+            if isinstance(x, ast.Call) and isinstance(x.func, ast.Name) and x.func.id == "type" and len(x.args) == 1:
+                return True
+            if isinstance(x, ast.Attribute) and x.attr == "__class__":
+                return True
+            return False
+        for n in own_nodes(f.node):
+            hit = None
+            if isinstance(n, (ast.Assign, ast.AugAssign, ast.AnnAssign)):
+                tg = n.targets if isinstance(n, ast.Assign) else [n.target]
+                for t_ in tg:
+                    for x in ast.walk(t_):
+                        if isinstance(x, ast.Attribute) and isinstance(x.ctx, ast.Store) and is_class_obj(x.value):
+                            hit = "%s.%s = ..." % (ast.unparse(x.value), x.attr)
+            elif isinstance(n, ast.Call) and isinstance(n.func, ast.Name) and n.func.id == "setattr" and len(n.args) == 3 and is_class_obj(n.args[0]):
+                hit = "setattr(%s, %s, ...)" % (ast.unparse(n.args[0]), ast.unparse(n.args[1])[:30])
+            if hit:
+                run.note_func(f)
+                run.violated(rule, f, n, "%s executes `%s`: it stores into the class object, not into the instance it is configuring, so the value becomes the default of "
+                             "every object of the class created afterwards in this process (a later call that leaves the option out inherits the earlier call's "
+                             "selection)" % (f.short, hit), kind="class-object-store", table=hit.split(" ")[0])
+
+
 def check_module(run, rule, modname, funcs=None, only_funcs=None):
     """Apply both shared-state rules to the functions of *modname*.
     Returns the number of table uses examined."""
@@ -430,6 +473,7 @@ def check_module(run, rule, modname, funcs=None, only_funcs=None):
     mod = project.mod(modname)
     defined_funcs = {n.name for n in mod.tree.body if isinstance(n, (ast.FunctionDef, ast.ClassDef))}
     _key_consistency(run, rule, project, modname, tabs, ev, modfuncs)
+    check_class_stores(run, rule, modname, modfuncs)
     # which tables hand their content back to a caller?  (a remembered *result*; a table that is only consulted for decisions --
     # readiness flags, a set of seen items -- is state of an algorithm, and what its entries "depend on" is its business)
     handed_back = set()
@@ -530,6 +574,14 @@ def check_module(run, rule, modname, funcs=None, only_funcs=None):
                                  kind="memo-key-incomplete", table=name, key=show(key)[:160], missing=sorted(missing))
                 else:
                     run.holds(rule, f, e.node, "table `%s`: stored value is determined by its key" % name, table=name)
+            # (c) a class-level mutable default that instance methods fill through `self`: every instance writes into the one
+            # container of the class, so what one object (one walk, one tiling) left there is seen by the next
+            if kind == "class" and (stores or muts) and tterm[0] == "attr" and tterm[1] == ("sym", "self"):
+                e0 = (stores or muts)[0]
+                run.violated(rule, f, e0.node, "`%s` is a class-level container (one object shared by every instance of %s) but %s fills it through `self`: entries "
+                             "left by one instance -- an earlier walk / tiling in the same process -- are still there for the next" % (
+                                 name, f.cls.name if f.cls is not None else "the class", f.short), kind="class-level-state", table=name)
+                continue
             # (b) scratch state shared between live activations
             if muts and kind in ("module", "class") and (is_gen or is_rec):
                 e = muts[0]
